@@ -61,6 +61,62 @@ def jobs_for(tier, rng, nd):
     return jobs
 
 
+def float_layouts(rep, tier, devs):
+    """Shipped (float-valued) problems: every layout must follow the 1-device / one-batch trajectory
+    sweep by sweep - bitwise, or within 1e-12 ("up to floating-point rounding")."""
+    import concurrent.futures as cf
+    from . import ckptlib
+    from .ckpt_scen import problems, solver_kw
+    P = problems(None)
+    combos = [("VI", "forest12"), ("PI", "de_moor"), ("RVI", "hendrix"), ("PVI", "mirjalili"), ("SAVI", "forest12")]
+    if tier == "thorough":
+        combos += [("VI", "de_moor"), ("PI", "forest12"), ("VI", "mirjalili"), ("SAVI", "de_moor")]
+    K = 12
+    with C.Scratch("verif-c03f-") as wd:
+        def one(args):
+            kind, pname, nd, mbs = args
+            kw = solver_kw(kind, pname)
+            kw.update({"max_batch_size": mbs, "checkpoint_frequency": 0})
+            spec = {"problem": P[pname][0], "kind": kind, "solver_kw": kw,
+                    "ops": [{"op": "new"}, {"op": "solve", "k": K}]}
+            tr = wd / f"{kind}-{pname}-{nd}-{mbs}.ndjson"
+            rc, err = ckptlib.run_gen(spec, tr, n_devices=nd, maxarr=100000)
+            if rc != 0:
+                raise C.MachineryError(f"float layout run failed ({kind},{pname},{nd},{mbs}): {err}")
+            return args, ckptlib.read_events(tr)
+        tasks = []
+        for kind, pname in combos:
+            tasks.append((kind, pname, 1, 100000))
+            for nd in devs:
+                for mbs in ([1, 7, 64] if tier == "quick" else [1, 3, 7, 50, 64, 1024]):
+                    if kind == "SAVI" and (nd, mbs) != (1, 100000):
+                        continue            # the semi-async sweep legitimately depends on the partition
+                    tasks.append((kind, pname, nd, mbs))
+        with cf.ThreadPoolExecutor(C.NCPU) as ex:
+            done = list(ex.map(one, tasks))
+    refs = {(a[0], a[1]): ckptlib.Reference(ev, rtol=1e-12) for a, ev in done if a[2] == 1 and a[3] == 100000}
+    traces, descs = [], []
+    for a, ev in done:
+        kind, pname, nd, mbs = a
+        ref = refs[(kind, pname)]
+        sc = {"freq": 0, "keep": 1, "isasync": False, "fullconfig": True, "kind": kind, "dirs": {}}
+        tr = ckptlib.build_trace(sc, [{"events": ev, "killed": False, "ops": []}], ref)
+        tr["refconv"] = ref.conv if ref.conv is not None else -5
+        traces.append(tr)
+        descs.append({"kind": kind, "problem": pname, "devices": nd, "max_batch_size": mbs})
+    acc, rej, drift, results = C.judge_traces("CheckpointTrace", traces, chunk=500, what="C03 float layouts")
+    for r in results:
+        rep.add_tlc("CheckpointTrace (shipped problems across layouts)", r)
+    rep.traces += len(traces)
+    for k, d in enumerate(descs):
+        rep.case(d, nontrivial=d["devices"] > 1 or d["max_batch_size"] < 64)
+        if k in rej:
+            rep.violation(f"C03 shipped problem differs across layouts: {rej[k][0][2]} :: {d}",
+                          {"layout": d, "clause": rej[k][0]})
+    rep.extra["shipped_problem_layout_runs"] = len(traces)
+    rep.extra["sweeps_equal_only_up_to_rounding"] = sum(r.rounded for r in refs.values())
+
+
 def run(tier):
     rep = C.Report("C03", tier)
     rng = random.Random(C.seed() + 3)
@@ -88,6 +144,7 @@ def run(tier):
     b = [(j, t) for j, t in zip(allj, allt) if j["kind"] == "PI"]
     solverlib.judge(rep, [x[0] for x in a], [x[1] for x in a], label="C03", known_key=known_key)
     solverlib.judge(rep, [x[0] for x in b], [x[1] for x in b], module="PITrace", label="C03", known_key=known_key)
+    float_layouts(rep, tier, devs)
     lay = {}
     for t in allt:
         L = t.get("layout")
@@ -98,7 +155,7 @@ def run(tier):
                       "traces_with_padding": sum(1 for t in allt if t.get("layout", {}).get("pad", 0) > 0),
                       "traces_without_padding_multi_device": sum(
                           1 for t in allt if t.get("layout", {}).get("pad", 1) == 0 and t.get("layout", {}).get("nd", 1) > 1),
-                      "not_covered": "cross-layout comparison on the float-valued shipped problems (tag-based, tolerance)"})
+                      })
     for j, t in list(zip(allj, allt))[:: max(1, len(allj) // 4)][:4]:
         if "ev" in t:
             rep.sample(solverlib.sample_of(j, t, 2))
